@@ -299,11 +299,22 @@ int upipe_h26xf_convert_frame(struct uref *uref,
     while (ubase_check(uref_h26x_iterate_nal(uref, &nal_units,
                                              &nal_offset, &nal_size,
                                              nal_offset_correction))) {
+        int64_t prev_correction = nal_offset_correction;
         UBASE_RETURN(upipe_h26xf_decaps_nal(uref, nal_offset, &nal_size,
                     encaps_input, &nal_offset_correction))
         UBASE_RETURN(upipe_h26xf_encaps_nal(uref, nal_offset, &nal_size,
                     encaps_output, ubuf_mgr, annexb_header,
                     &nal_offset_correction))
+
+        /* The iterator only applied the correction of the previous NALs to
+         * the offset of the next NAL, also apply the one of this NAL. */
+        uint64_t next_offset;
+        if (nal_offset_correction != prev_correction &&
+            ubase_check(uref_h26x_get_nal_offset(uref, &next_offset,
+                                                 nal_units - 1)))
+            UBASE_RETURN(uref_h26x_set_nal_offset(uref,
+                        next_offset + nal_offset_correction - prev_correction,
+                        nal_units - 1))
 
         if (vcl_offset && vcl_offset <= nal_offset + nal_size) {
             uref_block_set_header_size(uref,
